@@ -172,6 +172,18 @@ def use_repo():
 _PAR = {}
 
 
+def raised_in_code_under_test(exc) -> bool:
+    """True when the package under test was on the stack where `exc` was raised (the harness did not expect it to raise there):
+    that is a finding about the code, not a failure of the machinery."""
+    import traceback
+    root = os.path.join(repo_path(), "dissect", "hypervisor")
+    for fr in traceback.extract_tb(exc.__traceback__):
+        fn = fr.filename or ""
+        if fn.startswith(root) or "/dissect/hypervisor/" in fn:
+            return True
+    return False
+
+
 def _par_worker(args):
     idx, chunk = args
     fn, pid, tier, seed, level = _PAR["fn"], _PAR["pid"], _PAR["tier"], _PAR["seed"], _PAR["level"]
@@ -182,9 +194,12 @@ def _par_worker(args):
         fn(sub, chunk, idx)
     except MachineryError as e:
         return {"err": str(e)}
-    except Exception:  # noqa: BLE001
+    except Exception as e:  # noqa: BLE001
         import traceback
-        return {"err": traceback.format_exc()}
+        if raised_in_code_under_test(e):
+            sub.violation({"fail": "raised-in-code-under-test", "exc": type(e).__name__}, {"error": repr(e)[:300], "tb": traceback.format_exc()[-1500:]})
+        else:
+            return {"err": traceback.format_exc()}
     return {"ev": sub.evaluations, "nt": sub._nontrivial, "samples": sub.samples, "viol": sub.collect,
             "extra": sub.extra, "traces": sub.traces_validated}
 
